@@ -1,4 +1,5 @@
 import BppProofs.Lemmas.Number
+import BppProofs.Lemmas.NumberToInt
 import Mathlib.Tactic.NormNum
 /-!
 # C17 — write-then-read round trips and exact grammars: numbers
@@ -57,23 +58,27 @@ theorem grammar_unambiguous {dec sci : Char} (hs : SaneChars dec sci) (p q : Dec
   have h2 := parseDecimal_complete hs q hq
   rw [h] at h1; rw [h1] at h2; exact Option.some.inj h2
 
-/-- `toDouble` returns the value the grammar assigns (as a rational, before strtod's rounding) -/
-theorem toDouble_value {sci : Char} (hsci : sci = 'e' ∨ sci = 'E') (p : DecParts) (hwf : p.WF) :
-    toDouble '.' sci (p.render '.' sci) = some p.value := by
-  have hs : SaneChars '.' sci := by rcases hsci with rfl | rfl <;> (unfold SaneChars; decide)
+/-- `toDouble` returns the value the grammar assigns (as a rational, before strtod's rounding),
+whatever usable decimal separator and exponent character the caller chose (the full statement,
+since the repair "fix: TextTools::toDouble validated with the caller's decimal separator …") -/
+theorem toDouble_value {dec sci : Char} (hs : SaneChars dec sci) (p : DecParts) (hwf : p.WF) :
+    toDouble dec sci (p.render dec sci) = some p.value := by
   have hp := parseDecimal_complete hs p hwf
-  have hacc : isDecimalNumber '.' sci (p.render '.' sci) = true := by
+  have hacc : isDecimalNumber dec sci (p.render dec sci) = true := by
     rw [isDecimalNumber_eq_parse hs, hp]; rfl
-  simp [toDouble, hacc, streamDouble_of_parse hsci hp]
+  have hs' : SaneChars '.' 'e' := by unfold SaneChars; decide
+  have hp' := parseDecimal_complete hs' p hwf
+  simp [toDouble, hacc, map_trChar_render hs p hwf, streamDouble_of_parse (Or.inl rfl) hp']
 
-/-- FULL statement `toDouble dec sci (p.render dec sci) = some p.value` for arbitrary usable `dec`,
-`sci` is FALSE of the code (finding C17-todouble-ignores-custom-chars): the stream only knows `.`
-and `e`/`E`.  Witness: "1,5" with separator `,` is accepted, its value is 3/2, `toDouble` gives 1. -/
+example : SaneChars ',' 'x' ∧ SaneChars 'e' '.' := by unfold SaneChars; decide
+
+/-- the code before that repair handed the accepted text to the stream as it was: "1,5" with
+separator `,` is accepted, its value is 3/2, the conversion gave 1 -/
 theorem toDouble_custom_separator_witness :
     (⟨false, ['1'], true, ['5'], none⟩ : DecParts).WF ∧
     (⟨false, ['1'], true, ['5'], none⟩ : DecParts).render ',' 'e' = ['1', ',', '5'] ∧
     (⟨false, ['1'], true, ['5'], none⟩ : DecParts).value = 3 / 2 ∧
-    toDouble ',' 'e' ['1', ',', '5'] = some 1 := by
+    toDoubleNoTr ',' 'e' ['1', ',', '5'] = some 1 := by
   have hs : SaneChars ',' 'e' := by unfold SaneChars; decide
   have hwf : (⟨false, ['1'], true, ['5'], none⟩ : DecParts).WF := by
     refine ⟨?_, ?_, ?_, ?_, ?_⟩ <;> simp [AllDigits, isDigit]
@@ -82,7 +87,7 @@ theorem toDouble_custom_separator_witness :
   refine ⟨hwf, rfl, ?_, ?_⟩
   · simp [DecParts.value, mkValue, digitsVal, digitVal, pow10]
     norm_num
-  · simp only [toDouble, hacc, if_true]
+  · simp only [toDoubleNoTr, hacc, if_true]
     simp [streamDouble, streamUnsigned, streamTail, isDigit, List.takeWhile, List.dropWhile, mkValue, digitsVal,
       digitVal, pow10]
 
@@ -123,34 +128,34 @@ theorem toInt_raises {sci : Char} (hs : isDigit sci = false) (s : Str) (h : ¬ D
     · exact absurd ((integer_accepts_iff_grammar hs s).mp hh) h
   simp [toInt, this]
 
-/-- what `toInt` returns on a grammatical integer: the mantissa, clamped to the `int` range
-(`istringstream >> int` stops at the exponent mark) -/
-theorem toInt_reads_mantissa {sci : Char} (hs : isDigit sci = false) (p : IntParts) (hwf : p.WF) :
-    toInt sci (p.render sci)
+/-- **`toInt` returns the value the grammar assigns** (mantissa times power of ten) when it is an
+`int`, and raises otherwise — the full statement, since the repair "fix: TextTools::toInt ignored the
+exponent it accepts" -/
+theorem toInt_value {sci : Char} (hs : isDigit sci = false) (p : IntParts) (hwf : p.WF) :
+    toInt sci (p.render sci) = if intMin ≤ p.value ∧ p.value ≤ intMax then some p.value else none :=
+  toInt_render hs p hwf
+
+/-- what the code before that repair returned on a grammatical integer: the mantissa, clamped to the
+`int` range (`istringstream >> int` stops at the exponent mark) -/
+theorem toIntOld_reads_mantissa {sci : Char} (hs : isDigit sci = false) (p : IntParts) (hwf : p.WF) :
+    toIntOld sci (p.render sci)
       = some (clampInt (if p.neg then - (digitsVal p.ip : Int) else (digitsVal p.ip : Int))) := by
   have hp := parseInteger_complete hs p hwf
   have hacc : isDecimalInteger sci (p.render sci) = true := by
     rw [isDecimalInteger_eq_parse hs, hp]; rfl
-  simp [toInt, hacc, streamInt_of_parse hs hp]
+  simp [toIntOld, hacc, streamInt_of_parse hs hp]
 
-/-- FULL statement `toInt_value : toInt sci (p.render sci) = some (clampInt p.value)` is FALSE of the
-code (witness below: the exponent is ignored; recorded as finding C17-toint-ignores-exponent).
-Proved under the guard "no exponent part". -/
-theorem toInt_value_partial {sci : Char} (hs : isDigit sci = false) (p : IntParts) (hwf : p.WF)
-    (hex : p.ex = none) : toInt sci (p.render sci) = some (clampInt p.value) := by
-  rw [toInt_reads_mantissa hs p hwf]
-  simp [IntParts.value, hex]
-
-/-- witness: "1e2" is accepted, the grammar's value is 100, `toInt` returns 1 -/
+/-- witness against the code as found: "1e2" is accepted, the grammar's value is 100, the old
+`toInt` returned 1 -/
 theorem toInt_exponent_witness :
     (⟨false, ['1'], some (false, ['2'])⟩ : IntParts).WF ∧
     (⟨false, ['1'], some (false, ['2'])⟩ : IntParts).render 'e' = ['1', 'e', '2'] ∧
     (⟨false, ['1'], some (false, ['2'])⟩ : IntParts).value = 100 ∧
-    toInt 'e' ['1', 'e', '2'] = some 1 := by
+    toIntOld 'e' ['1', 'e', '2'] = some 1 := by
   have hwf : (⟨false, ['1'], some (false, ['2'])⟩ : IntParts).WF := by
     refine ⟨?_, ?_, ?_, ?_⟩ <;> simp [AllDigits, isDigit]
   refine ⟨hwf, rfl, by decide, ?_⟩
-  have := toInt_reads_mantissa (sci := 'e') (by decide) _ hwf
+  have := toIntOld_reads_mantissa (sci := 'e') (by decide) _ hwf
   simpa [IntParts.render, digitsVal, digitVal, clampInt, intMin, intMax] using this
 
 /-- `toInt (toString n) = n` for every `int` -/
@@ -162,17 +167,25 @@ theorem int_roundtrip {sci : Char} (hs : isDigit sci = false) (n : Int) (hlo : i
   have hr : intToString n = p.render sci := by
     unfold intToString IntParts.render
     by_cases hn : n < 0 <;> simp [p, hn]
-  rw [hr, toInt_reads_mantissa hs p hwf]
-  simp only [p, h3]
-  congr 1
-  unfold clampInt
-  by_cases hn : n < 0
-  · simp only [hn, decide_true, if_true]
-    have : -(n.natAbs : Int) = n := by omega
-    rw [this]; simp only [intMin, intMax] at *; omega
-  · simp only [hn, decide_false]
-    have : (n.natAbs : Int) = n := by omega
-    simp only [Bool.false_eq_true, if_false, this]; simp only [intMin, intMax] at *; omega
+  have hv : p.value = n := by
+    simp only [IntParts.value, p, h3]
+    by_cases hn : n < 0
+    · simp only [hn, decide_true, if_true]; omega
+    · simp only [hn, decide_false, Bool.false_eq_true, if_false]; omega
+  rw [hr, toInt_value hs p hwf, hv]
+  simp [hlo, hhi]
+
+/-- "1e2" is 100 now, and a numeral beyond the range raises (it was clamped to `INT_MAX` before) -/
+example : toInt 'e' ['1', 'e', '2'] = some 100 ∧ toInt 'e' ['5', 'e', '9'] = none := by
+  have hwf1 : (⟨false, ['1'], some (false, ['2'])⟩ : IntParts).WF := by
+    refine ⟨?_, ?_, ?_, ?_⟩ <;> simp [AllDigits, isDigit]
+  have hwf2 : (⟨false, ['5'], some (false, ['9'])⟩ : IntParts).WF := by
+    refine ⟨?_, ?_, ?_, ?_⟩ <;> simp [AllDigits, isDigit]
+  have h1 := toInt_value (sci := 'e') (by decide) _ hwf1
+  have h2 := toInt_value (sci := 'e') (by decide) _ hwf2
+  constructor
+  · simpa [IntParts.render, IntParts.value, digitsVal, digitVal, intMin, intMax] using h1
+  · simpa [IntParts.render, IntParts.value, digitsVal, digitVal, intMin, intMax] using h2
 
 /-- non-vacuity of `int_roundtrip` at the limits -/
 example : toInt 'e' (intToString intMin) = some intMin ∧ toInt 'e' (intToString intMax) = some intMax :=
